@@ -46,6 +46,7 @@ ASSUMPTIONS = [
 REQUIRED = {
     "decompositions_built": 150,
     "split_combine_checked": 400,
+    "subfields_with_ghost_cells_checked": 300,
     "neighbour_pairs_checked": 400,
     "operator_equivalences": 60,
     "messages_delivered": 300,
@@ -182,12 +183,34 @@ def check_split_combine(grid, mesh, rng, res, case):
         if type(sub) is not cls or not np.array_equal(sub.data, mesh.extract_field_data(f.data, len(mesh) - 1)):
             res.violation("extract_subfield differs from extract_field_data", case)
             return
+        node = int(rng.integers(len(mesh)))
+        subg = mesh.extract_subfield(f, node, with_ghost_cells=True)
+        res.count("subfields_with_ghost_cells_checked")
+        if type(subg) is not cls or subg._data_full.tobytes() != mesh.extract_field_data(f._data_full, node, with_ghost_cells=True).tobytes():
+            res.violation(f"extract_subfield(with_ghost_cells=True) of a rank-{rank} field differs from the corresponding part of the padded array", case, node=node)
+            return
     fc = pde.FieldCollection([pde.ScalarField(grid, rng.uniform(size=grid.shape)), pde.VectorField(grid, rng.uniform(size=(grid.dim, *grid.shape)))])
     subs = [mesh.extract_subfield(fc, i) for i in range(len(mesh))]
     back = mesh.combine_field_data([s.data for s in subs])
     res.count("split_combine_checked")
     if back.tobytes() != fc.data.tobytes():
         res.violation("split+combine of a field collection is not the identity", case)
+    fc._data_full[...] = rng.uniform(-1, 1, size=fc._data_full.shape)
+    for node in range(len(mesh)):
+        sub = mesh.extract_subfield(fc, node, with_ghost_cells=True)
+        res.count("subfields_with_ghost_cells_checked")
+        want = mesh.extract_field_data(fc._data_full, node, with_ghost_cells=True)
+        if not isinstance(sub, pde.FieldCollection) or sub._data_full.shape != want.shape or sub._data_full.tobytes() != want.tobytes():
+            res.violation("extract_subfield(with_ghost_cells=True) of a field collection differs from the corresponding part of the padded array", case, node=node)
+            return
+        for k, member in enumerate(sub):
+            if not np.shares_memory(member._data_full, sub._data_full):
+                res.violation(f"member {k} of an extracted sub-collection is not linked to the collection's data", case, node=node)
+                return
+    back = mesh.combine_field_data([mesh.extract_subfield(fc, i, with_ghost_cells=True)._data_full for i in range(len(mesh))], with_ghost_cells=True)
+    valid = (Ellipsis, *(slice(1, -1),) * nd)
+    if back[valid].tobytes() != fc._data_full[valid].tobytes():
+        res.violation("split+combine of a field collection with ghost cells changed valid data", case)
 
 
 def check_neighbours(grid, mesh, deco, res, case):
